@@ -9,7 +9,7 @@ import (
 
 // Defect classes that can be injected into a valid configuration. Every injection uses
 // fresh names, so injections are independent of each other.
-var DefectKinds = []string{"missing-param", "missing-service", "cycle-svc", "cycle-param", "scope", "grammar", "token"}
+var DefectKinds = []string{"missing-param", "missing-service", "cycle-svc", "cycle-param", "scope", "grammar", "token", "missing-mixed"}
 
 func pickService(r *rand.Rand, c *cfg.Config) *cfg.Service {
 	var idx []int
@@ -79,6 +79,26 @@ func Inject(r *rand.Rand, c *cfg.Config, kind string, n int) {
 		if r.Intn(3) == 0 {
 			addRef(r, sv, "@"+name) // the same dangling reference twice: two diagnostics, possibly identical and adjacent
 		}
+	case "missing-mixed":
+		// one fresh service whose constructor arguments alone (no calls, no fields) hold dangling references of BOTH
+		// classes next to defined ones, in a random order
+		args := []cfg.Val{cfg.Str(fmt.Sprintf("@nopeMS%d", n)), cfg.Str(fmt.Sprintf("%%nopeMP%d%%", n))}
+		if r.Intn(2) == 0 {
+			args = append(args, cfg.Str(fmt.Sprintf("@nopeMT%d", n)))
+		}
+		if r.Intn(2) == 0 {
+			args = append(args, cfg.Str(fmt.Sprintf("x%%nopeMQ%d%%", n)))
+		}
+		if len(c.Params) > 0 && r.Intn(2) == 0 {
+			if k := c.Params[r.Intn(len(c.Params))].K; plainName(k) {
+				args = append(args, cfg.Str("%"+k+"%"))
+			}
+		}
+		if r.Intn(2) == 0 {
+			args = append(args, cfg.Int(int64(n)))
+		}
+		r.Shuffle(len(args), func(i, j int) { args[i], args[j] = args[j], args[i] })
+		c.Services = append(c.Services, cfg.Service{Name: fmt.Sprintf("mix%d", n), Constructor: cfg.P(`"fixt/pa".New`), Args: args})
 	case "cycle-svc":
 		a, b := fmt.Sprintf("cycA%d", n), fmt.Sprintf("cycB%d", n)
 		switch r.Intn(3) {
@@ -128,3 +148,41 @@ func Inject(r *rand.Rand, c *cfg.Config, kind string, n int) {
 }
 
 func choose2(r *rand.Rand, xs ...string) string { return xs[r.Intn(len(xs))] }
+
+func plainName(s string) bool {
+	for _, ch := range s {
+		if !(ch >= 'a' && ch <= 'z' || ch >= 'A' && ch <= 'Z' || ch >= '0' && ch <= '9' || ch == '_') {
+			return false
+		}
+	}
+	return s != ""
+}
+
+// Externalise removes definitions that the rest of the configuration refers to and leaves the references in place:
+// parameters and services that are only supplied at run time (OverrideParam / OverrideService), built with the
+// --ignore-missing-* flags. mode 0: every parameter; 1: about half of them; 2: some services; 3: every parameter and some services.
+// It returns the flags the build needs.
+func Externalise(r *rand.Rand, c *cfg.Config, mode int) []string {
+	var flags []string
+	if mode == 0 || mode == 1 || mode == 3 {
+		var keep []cfg.KV
+		for _, kv := range c.Params {
+			if mode == 1 && r.Intn(2) == 0 {
+				keep = append(keep, kv)
+			}
+		}
+		c.Params = keep
+		flags = append(flags, "--ignore-missing-params")
+	}
+	if mode == 2 || mode == 3 {
+		var keep []cfg.Service
+		for _, s := range c.Services {
+			if r.Intn(3) != 0 {
+				keep = append(keep, s)
+			}
+		}
+		c.Services = keep
+		flags = append(flags, "--ignore-missing-services")
+	}
+	return flags
+}
